@@ -82,6 +82,15 @@ func Bases() map[string][]Op {
 		{K: VSetMeta, I: "i", ID: "c", M: map[string]any{"t": true}},
 		{K: VAdd, I: "i", ID: "d", V: v(2, 2)},
 	}
+	b["meta-then-delete"] = []Op{mk("euclidean", "float32"),
+		{K: VAdd, I: "i", ID: "a", V: v(1, 0), M: map[string]any{"s": "x"}},
+		{K: VAdd, I: "i", ID: "b", V: v(0, 1)},
+		{K: VSetMeta, I: "i", ID: "a", M: map[string]any{"n": 1.0}},
+		{K: VDel, I: "i", ID: "a"},
+		{K: VReinforce, I: "i", IDs: []string{"b"}},
+		{K: VDel, I: "i", ID: "b"},
+		{K: VAdd, I: "i", ID: "c", V: v(1, 1)},
+	}
 	b["compress-f16"] = []Op{mk("euclidean", "float32"),
 		{K: VAdd, I: "i", ID: "a", V: v(0.1, 1), M: map[string]any{"s": "x"}},
 		{K: VAdd, I: "i", ID: "b", V: v(1, 0)},
